@@ -109,6 +109,13 @@ func Harness_C16_attribute() {
 	verifAssume(other != name)
 	claims.Attributes[other] = []string{verifNondetString("other.value")}
 	wantName, wantValue := verifNondetString("want.name"), verifNondetString("want.value")
+	if verifChoose("case.variants", 2) == 1 {
+		// values that differ from the required one only in letter case are different values
+		name, wantName = "role", "role"
+		vals = []string{[]string{"Admin", "ADMIN", "admin "}[verifChoose("case.value", 3)]}
+		wantValue = "admin"
+		claims.Attributes = Attributes{name: vals, other: {"x"}}
+	}
 
 	ran := false
 	inner := http.HandlerFunc(func(w http.ResponseWriter, r *http.Request) { ran = true })
